@@ -78,7 +78,7 @@ func checkC05(c *Ctx, r *Report) {
 			if len(vals) < 2 || !onlyWhenNil(f, ret, ssa.Value(upd), false) {
 				return
 			}
-			if derivesFrom(vals[1], func(v ssa.Value) bool {
+			if derivesFromDeep(vals[1], nil, func(v ssa.Value, _ dctx) bool {
 				u, ok := v.(*ssa.UnOp)
 				if !ok {
 					return false
@@ -937,7 +937,7 @@ func checkC09(c *Ctx, r *Report) {
 				}
 				// acceptable: carries ErrNotCacheable
 				carries := false
-				derivesFrom(ev, func(v ssa.Value) bool {
+				derivesFromDeep(ev, nil, func(v ssa.Value, _ dctx) bool {
 					if u, ok := v.(*ssa.UnOp); ok {
 						if gl, ok := u.X.(*ssa.Global); ok && gname(gl) == "ErrNotCacheable" {
 							carries = true
